@@ -494,6 +494,11 @@ fn corpus(thorough: bool) -> Vec<Case> {
         cs.push(refused(&format!("handler-{}", code), get_close(&format!("/fail/{}", code))));
     }
     cs.push(refused("bad-pct-path", get_close("/w/%zz")));
+    // escapes that do not decode to UTF-8, in a string path variable: malformed, a 4xx
+    for (i, p) in ["/name/%ff", "/name/ab%C3", "/name/%c0%af", "/name/%ed%a0%80", "/name/ok%80", "/name/%F5%80%80%80"].iter().enumerate() {
+        cs.push(refused(&format!("bad-utf8-path-{}", i), get_close(p)));
+    }
+    cs.push(Case { kind: "valid-utf8-path".into(), fault: None, sent: Sent::raw(&get_close("/name/caf%C3%A9")), end: End::Wait });
     // a typed JSON body under odd spellings of its content type: a trailing semicolon, empty
     // and valueless parameters, blanks (whatever the answer - accepted or refused - it comes
     // at once, and the server goes on answering: each is sent on several connections)
